@@ -86,35 +86,6 @@ Proof.
       apply IH; lia.
 Qed.
 
-(* ---------- cut_empty ---------- *)
-Lemma cut_empty_split l : exists tl, l = cut_empty l ++ tl /\
-  (tl = [] \/ exists e r, tl = e :: r /\ e_len e = 0).
-Proof.
-  induction l as [|e r IH].
-  - exists []. split; [reflexivity | left; reflexivity].
-  - cbn [cut_empty]. destruct (e_len e =? 0) eqn:E0.
-    + apply Z.eqb_eq in E0. exists (e :: r). split; [reflexivity|]. right. exists e, r. auto.
-    + destruct IH as (tl & Hl & Ht). exists tl. split; [|exact Ht].
-      cbn [app]. f_equal. exact Hl.
-Qed.
-Lemma cut_empty_In l e : In e (cut_empty l) -> In e l.
-Proof.
-  induction l as [|x r IH]; cbn [cut_empty]; [auto|].
-  destruct (e_len x =? 0); cbn [In]; [tauto|]. intros [H|H]; auto.
-Qed.
-Lemma cut_empty_contiguous l : forall off, contiguous off l -> contiguous off (cut_empty l).
-Proof.
-  induction l as [|x r IH]; intros off H; cbn [cut_empty]; [exact I|].
-  destruct (e_len x =? 0); [exact I|]. cbn [contiguous] in *. destruct H as [H1 H2]. auto.
-Qed.
-Lemma cut_empty_len l : zlen (cut_empty l) <= zlen l.
-Proof.
-  induction l as [|x r IH]; cbn [cut_empty]; [lia|].
-  destruct (e_len x =? 0); rewrite ?zlen_cons, ?(@zlen_nil elem).
-  - pose proof (zlen_nonneg r). lia.
-  - lia.
-Qed.
-
 Lemma elements_skipn buf : elements buf = chain (length buf + 1) (skipn (Z.to_nat 0) buf) 0.
 Proof. reflexivity. Qed.
 
@@ -128,11 +99,12 @@ Proof.
   repeat split; try assumption. lia.
 Qed.
 
+(* iteration reports the whole chain (finding F44: an empty element no longer ends it) *)
+Lemma reported_all : forall buf, reported buf = elements buf.
+Proof. reflexivity. Qed.
+
 Lemma reported_incl buf e : In e (reported buf) -> In e (elements buf).
-Proof.
-  unfold reported. destruct (elements buf) as [|x r]; [auto|].
-  cbn [In]. intros [H|H]; [auto|]. right. apply cut_empty_In. exact H.
-Qed.
+Proof. rewrite reported_all. auto. Qed.
 
 (* ---------- the C06 lemmas about the spec ---------- *)
 Lemma reported_genuine : forall buf e, wfbytes buf -> In e (reported buf) -> genuine buf e.
@@ -144,9 +116,7 @@ Qed.
 Lemma reported_contiguous : forall buf, wfbytes buf -> contiguous 0 (reported buf).
 Proof.
   intros buf Hwf. destruct (elements_props buf Hwf) as (_ & C & _).
-  unfold reported. destruct (elements buf) as [|x r]; [exact I|].
-  cbn [contiguous] in *. destruct C as [C1 C2]. split; [exact C1|].
-  apply cut_empty_contiguous. exact C2.
+  rewrite reported_all. exact C.
 Qed.
 
 Lemma elements_maximal : forall buf, wfbytes buf ->
@@ -161,22 +131,10 @@ Proof.
   apply chain_stop; [assumption | lia | unfold zlen; lia].
 Qed.
 
-Lemma reported_prefix : forall buf, exists tl, elements buf = reported buf ++ tl /\
-  (tl = [] \/ exists e r, tl = e :: r /\ e_len e = 0 /\ reported buf <> []).
-Proof.
-  intros buf. unfold reported. destruct (elements buf) as [|x r].
-  - exists []. split; [reflexivity | left; reflexivity].
-  - destruct (cut_empty_split r) as (tl & Hl & Ht). exists tl. split.
-    + cbn [app]. f_equal. exact Hl.
-    + destruct Ht as [Ht | (e & r' & He & H0)]; [left; exact Ht|].
-      right. exists e, r'. repeat split; try assumption. discriminate.
-Qed.
-
 Lemma reported_bound : forall buf, wfbytes buf -> 2 * zlen (reported buf) <= zlen buf.
 Proof.
   intros buf Hwf. destruct (elements_props buf Hwf) as (_ & _ & L).
-  unfold reported. destruct (elements buf) as [|x r]; [rewrite (@zlen_nil elem); apply zlen_nonneg|].
-  rewrite zlen_cons in *. pose proof (cut_empty_len r). lia.
+  rewrite reported_all. exact L.
 Qed.
 
 (* ---------- the C loop against the spec ---------- *)
@@ -188,7 +146,7 @@ Lemma walk_exact rd buf : wfbytes buf -> agrees rd buf ->
   (Z.to_nat (zlen buf - off) < fuel)%nat -> (Z.to_nat (zlen buf - (off + 2 + l)) < cf)%nat ->
   walk rd fuel it =
   Done ({| e_off := off; e_num := znth buf off; e_len := l |} ::
-        cut_empty (chain cf (skipn (Z.to_nat (off + 2 + l)) buf) (off + 2 + l))).
+        chain cf (skipn (Z.to_nat (off + 2 + l)) buf) (off + 2 + l)).
 Proof.
   intros Hwf Hag. induction fuel as [|fuel IH]; intros it cf off l Hh Hl Hoff Hoff2 Hn Hfit He Hf Hcf; [lia|].
   assert (Hl0 : 0 <= l) by (rewrite Hl; apply wfbytes_znth; [assumption | lia]).
@@ -200,31 +158,25 @@ Proof.
   destruct (skipn (Z.to_nat (off + 2 + l)) buf) as [|a [|b rest]] eqn:E.
   - pose proof (skipn_short0 buf (off + 2 + l) ltac:(lia) E) as S0.
     destruct (zlen buf - 1 <=? off + 2 + l) eqn:C1; [|apply Z.leb_gt in C1; lia].
-    cbn [bind cut_empty]. reflexivity.
+    cbn [bind]. reflexivity.
   - pose proof (skipn_short1 buf (off + 2 + l) a ltac:(lia) E) as S1.
     destruct (zlen buf - 1 <=? off + 2 + l) eqn:C1; [|apply Z.leb_gt in C1; lia].
-    cbn [bind cut_empty]. reflexivity.
+    cbn [bind]. reflexivity.
   - destruct (skipn_dest2 buf (off + 2 + l) a b rest ltac:(lia) E) as (Ha & Hb & Hr & Hsk).
     pose proof (zlen_nonneg rest) as Hr0.
     destruct (zlen buf - 1 <=? off + 2 + l) eqn:C1; [apply Z.leb_le in C1; lia|].
     cbn [bind]. rewrite (Hag (off + 2 + l + 1)) by lia. cbn [bind]. rewrite <- Hb.
     assert (Hb0 : 0 <= b) by (rewrite Hb; apply wfbytes_znth; [assumption | lia]).
-    destruct (b <=? 0) eqn:C2.
-    + apply Z.leb_le in C2. assert (C5 : (b =? 0) = true) by (apply Z.eqb_eq; lia).
-      cbn [bind]. destruct (zlen rest <? b); cbn [cut_empty e_len]; rewrite ?C5; reflexivity.
-    + apply Z.leb_gt in C2.
-      destruct (zlen buf - 1 - (off + 2 + l) <=? b) eqn:C3.
-      * apply Z.leb_le in C3. cbn [bind].
-        destruct (zlen rest <? b) eqn:C4; [|apply Z.ltb_ge in C4; lia].
-        cbn [cut_empty]. reflexivity.
-      * apply Z.leb_gt in C3.
-        destruct (zlen rest <? b) eqn:C4; [apply Z.ltb_lt in C4; lia|].
-        rewrite (Hag (off + 2 + l)) by lia. cbn [bind].
-        cbn [cut_empty e_len].
-        destruct (b =? 0) eqn:C5; [apply Z.eqb_eq in C5; lia|].
-        rewrite (Hsk b Hb0).
-        rewrite (IH _ cf (off + 2 + l) b); cbn [it_hdr it_next it_end]; try lia; try assumption.
-        cbn [bind]. rewrite <- Ha. reflexivity.
+    destruct (zlen buf - 1 - (off + 2 + l) <=? b) eqn:C3.
+    + apply Z.leb_le in C3. cbn [bind].
+      destruct (zlen rest <? b) eqn:C4; [|apply Z.ltb_ge in C4; lia].
+      reflexivity.
+    + apply Z.leb_gt in C3.
+      destruct (zlen rest <? b) eqn:C4; [apply Z.ltb_lt in C4; lia|].
+      rewrite (Hag (off + 2 + l)) by lia. cbn [bind].
+      rewrite (Hsk b Hb0).
+      rewrite (IH _ cf (off + 2 + l) b); cbn [it_hdr it_next it_end]; try lia; try assumption.
+      cbn [bind]. rewrite <- Ha. reflexivity.
 Qed.
 
 Lemma elements_unfold buf : elements buf =
@@ -276,4 +228,12 @@ Proof.
   destruct (zlen buf <? 2) eqn:C0; [reflexivity|]. apply Z.ltb_ge in C0.
   rewrite (Hag 1) by lia. cbn [bind].
   destruct (zlen buf - 2 <? znth buf 1) eqn:C1; [reflexivity|]. apply Z.ltb_ge in C1. lia.
+Qed.
+
+(* ---------- completeness (finding F44): every element of the chain is reported ---------- *)
+Lemma iterate_complete_all : forall buf rd, wfbytes buf -> agrees rd buf -> elements buf <> [] ->
+  iterate rd (zlen buf) = Done (Ok (elements buf)).
+Proof.
+  intros buf rd Hwf Hag Hne. rewrite (iterate_exact buf rd Hwf Hag).
+  unfold spec_iterate, reported. destruct (elements buf); [contradiction | reflexivity].
 Qed.
